@@ -29,6 +29,11 @@ def floors(tier):
     return {'interpreted': 800, 'len:step_kinds': 5, 'len:join_kinds': 7, 'not_interpretable_pct_ok': 1}
 
 
+def ceilings(tier):
+    # fractions of all evaluations; the unchanged tree stays below about two thirds of each
+    return {'skip:not-interpretable': 0.09, 'skip:planner-rejects': 0.06}
+
+
 def make_db(state):
     db = sqlite3.connect(':memory:')
     for i in INTS:
